@@ -8,10 +8,14 @@ linearization point for RaptorTrace.tla.
               per-mode dispatchers of raptor.Worker called in-process.
               No threads, no real sleeping, no real worker processes:
                 - `mp.Process` is a recorder.  The dispatch process of a request
-                  is *emulated in-process* when the schedule says it finishes:
-                  the real `_dispatch` runs with a fake child process whose fate
-                  (runs to the end / hangs until the timeout / puts its result
-                  and is still alive at the timeout) is chosen by the schedule.
+                  runs when the schedule says so: the real `_dispatch` (parent)
+                  and its real nested `_worker_proc` (child) are two logical
+                  threads of a baton-passing controller (harness/sched_ctl.py);
+                  `mp.Lock` / `mp.Event` / `mp.Process.join|terminate` and the
+                  result queue's `put` are instrumented stand-ins whose
+                  operations are the schedule points, so the interleaving of
+                  parent and child is a schedule choice (TLC behaviour, seeded
+                  random, or exhaustive exploration).
                 - `time.sleep` of the wait-for-resources poll is the schedule
                   point at which completions are delivered through the real
                   `_result_watcher` / `_result_cb`.
@@ -36,6 +40,7 @@ import threading as mt
 from unittest import mock
 
 from .. import rpshim
+from .. import sched_ctl as SC
 
 rp  = rpshim.load()
 ru  = __import__('radical.utils', fromlist=['x'])
@@ -202,15 +207,20 @@ class FakePub(object):
 
 
 class FakeResultQueue(object):
-    '''the worker's internal mp.Queue'''
+    '''the worker's internal mp.Queue; `put` is a schedule point'''
 
     def __init__(self, rig):
         self.rig = rig
 
     def put(self, res):
-        self.rig.nres += 1
-        self.rig.resq.append({'uid': res[0]['uid'], 'n': 1 if self.rig.in_child else 2,
-                              'res': copy.deepcopy(res)})
+        rig = self.rig
+        who = rig.ctl.current() if rig.ctl else None
+        if who:
+            rig.ctl.point('put')
+        rig.nres += 1
+        rig.resq.append({'uid': res[0]['uid'], 'n': 1 if who == 'C' else 2,
+                         'res': copy.deepcopy(res)})
+        rig.log('QPut', uid=res[0]['uid'], n=1 if who == 'C' else 2)
 
     def get(self, timeout=None):
         e, self.rig.pick = self.rig.pick, None
@@ -225,16 +235,60 @@ class FakeResultQueue(object):
         pass
 
 
+class Ctl(SC.Controller):
+    '''controller which can take a logical thread out of the game (terminate)'''
+
+    def kill(self, name):
+        lt = self.threads.get(name)
+        if lt is not None and lt.state != 'done':
+            lt.killed = True
+            lt.state  = 'done'
+
+    def abort(self):
+        self.aborting = True
+        for n in self.order:
+            lt = self.threads[n]
+            if getattr(lt, 'killed', False):
+                lt.killed = False
+                lt.sem.release()
+        SC.Controller.abort(self)
+
+
+class Gate(object):
+    '''something to wait for: `owner` is not None while the wait has to go on'''
+
+    def __init__(self, closed):
+        self.closed = closed
+
+    @property
+    def owner(self):
+        return 'x' if self.closed() else None
+
+
+class CtlEvent(object):
+    '''mp.Event: set / is_set are schedule points'''
+
+    def __init__(self, rig):
+        self.rig, self.flag = rig, False
+
+    def set(self):
+        self.rig.ctl.point('set')
+        self.flag = True
+
+    def is_set(self):
+        self.rig.ctl.point('is_set')
+        return self.flag
+
+
 class FakeProcess(object):
-    '''mp.Process: a recorder for the dispatch process created by _request_cb,
-       an in-process emulation for the child created by _dispatch'''
+    '''mp.Process: a recorder for the dispatch process created by _request_cb;
+       the child created by _dispatch becomes the logical thread "C"'''
     _pid = [4000]
 
     def __init__(self, rig, target, args):
         self.rig, self.target, self.args = rig, target, args
         self.daemon   = False
         self.pid      = None
-        self.alive    = False
         self.exitcode = None
         self.child    = getattr(target, '__name__', '') == '_worker_proc'
 
@@ -251,26 +305,34 @@ class FakeProcess(object):
             rig.running.append(uid)
             rig.log('Spawn', uid=uid, ok=True)
             return
-        # child of the dispatch process
-        if rig.outcome in ('nat', 'late'):
-            rig.in_child = True
+
+        def body():
             try:
                 self.target(*self.args)
-                self.exitcode = 0
+            except SC.Abort:
+                raise
             except BaseException:          # mp.Process._bootstrap catches all
-                self.exitcode = 1
-            finally:
-                rig.in_child = False
-        self.alive = rig.outcome in ('timeout', 'late')
+                pass
+        rig.ctl.spawn('C', body)
+
+    def _ended(self):
+        lt = self.rig.ctl.threads.get('C')
+        return lt is None or lt.state == 'done'
 
     def join(self, timeout=None):
-        pass
+        if self._ended():
+            return
+        if timeout is not None:
+            self.rig.ctl.point('join')      # returns: child ended or timeout expired
+        else:
+            self.rig.ctl.point('join', wants=Gate(lambda: not self._ended()))
 
     def is_alive(self):
-        return self.alive
+        return not self._ended()
 
     def terminate(self):
-        self.alive = False
+        self.rig.ctl.point('kill')
+        self.rig.ctl.kill('C')
 
 
 class FakeMP(object):
@@ -281,10 +343,10 @@ class FakeMP(object):
         return FakeProcess(self.rig, target, args)
 
     def Lock(self):
-        return mt.Lock()
+        return SC.CLock(self.rig.ctl, 'res') if self.rig.ctl else mt.Lock()
 
     def Event(self):
-        return mt.Event()
+        return CtlEvent(self.rig) if self.rig.ctl else mt.Event()
 
 
 # ------------------------------------------------------------------------------
@@ -426,23 +488,19 @@ class DispatcherBench(object):
 # ------------------------------------------------------------------------------
 class RaptorRig(DispatcherBench):
 
-    def __init__(self, reqs, script=None, seed=0, ncores=3, ngpus=2, late=False,
-                 max_ops=2000):
+    def __init__(self, reqs, script=None, seed=0, ncores=3, ngpus=2, max_ops=2000):
         '''
         reqs   : dict uid -> req()
         script : None (seeded random schedule) or list of operations
-                   ('dispatch', uid) ('take', uid) ('finish', uid, outcome)
+                   ('dispatch', uid) ('take', uid) ('finish', uid, sched)
                    ('deliver', uid, n) ('result', uid) ('localdone', uid, ec)
                  operations which are not enabled when their turn comes are
                  skipped; once the script is used up the rig drives the rest to
                  the end (first enabled operation).
-        late   : the random schedule may use the outcome 'late' (result put by
-                 the child *and* by the timeout branch)
         '''
         self.reqs, self.ncores, self.ngpus = reqs, ncores, ngpus
         self.rng     = random.Random(seed)
         self.script  = list(script) if script is not None else None
-        self.late    = late
         self.max_ops = max_ops
         self.nops    = 0
 
@@ -455,8 +513,7 @@ class RaptorRig(DispatcherBench):
         self.agent     = []        # pushed to the agent's pipeline by the master
         self.pick      = None
         self.nres      = 0
-        self.in_child  = False
-        self.outcome   = None
+        self.ctl       = None
         self.wdead     = False
         self.blocked   = False
         self.undisp    = sorted(reqs)
@@ -575,30 +632,59 @@ class RaptorRig(DispatcherBench):
         finally:
             self.blocked = False
 
-    def do_finish(self, uid, outcome):
-        '''the dispatch process of `uid` runs (real _dispatch, emulated child)'''
+    def do_finish(self, uid, sched):
+        '''the dispatch process of `uid` runs: real _dispatch (logical thread
+           "P") and its real _worker_proc (logical thread "C").
+           sched: string over P / C (which thread takes the next step; entries
+           which are not enabled are skipped), followed by "child first";
+           'nat' == '' (child first), 'timeout' == parent first; or a chooser
+           callable (exhaustive exploration).'''
         proc = self.procs.get(uid)
         if proc is None or getattr(proc, 'finished', False):
             return
-        if outcome in ('timeout', 'late') and not self.reqs[uid]['tmo']:
-            outcome = 'nat'
         proc.finished = True
         if uid in self.running:
             self.running.remove(uid)
         task, env = copy.deepcopy(proc.args[0]), dict(proc.args[1])
-        self.outcome, self.nres = outcome, 0
+        self.nres = 0
+
+        if callable(sched):
+            chooser = sched
+        else:
+            rest   = list({'nat': '', 'timeout': 'P' * 8}.get(sched, sched))
+            prefer = 'P' if sched == 'timeout' else 'C'
+
+            def chooser(en, ctl):
+                while rest:
+                    n = rest.pop(0)
+                    if n in en:
+                        return n
+                return prefer if prefer in en else en[0]
+
+        def parent():
+            try:
+                proc.target(task, env)
+            except SystemExit:
+                pass
+
+        self.ctl = ctl = Ctl(chooser, max_steps=200)
         self.penv.enter()
+        dead = False
         try:
             with mock.patch.object(wd.os, 'getpid', lambda: proc.pid), \
                  mock.patch.object(setproctitle, 'setproctitle', lambda *a: None):
+                ctl.spawn('P', parent)
                 try:
-                    proc.target(task, env)
-                except SystemExit:
-                    pass
+                    ctl.run()
+                except SC.Deadlock:
+                    dead = True
+                    ctl.abort()
         finally:
+            self.ctl = None
             self.penv.leave()
-            self.outcome = None
-        self.log('Fin', uid=uid, o=outcome, nres=self.nres)
+        self.log('Fin', uid=uid, o=''.join(c for _, c in ctl.choices), nres=self.nres,
+                 deadlock=dead)
+        return ctl
 
     def do_deliver(self, uid=None, n=None):
         if self.wdead or not self.resq:
@@ -649,8 +735,7 @@ class RaptorRig(DispatcherBench):
             ops.append(('finish', u, 'nat'))
             if self.reqs[u]['tmo']:
                 ops.append(('finish', u, 'timeout'))
-                if self.late:
-                    ops.append(('finish', u, 'late'))
+                ops.append(('finish', u, ''.join(self.rng.choice('PC') for _ in range(12))))
         if not self.wdead:
             for e in self.resq:
                 ops.append(('deliver', e['uid'], e['n']))
